@@ -18,6 +18,7 @@ def step (line : String) : String :=
   | "u8" :: args => u8 args
   | "find" :: args => findCmd args
   | "txt" :: args => txt args
+  | "dv" :: args => dv args
   | ["reset"] => "ok"
   | _ => "bad-op"
 
